@@ -600,7 +600,20 @@ func c14Summary(c *Ctx, p *Prog) {
 		return
 	}
 	start := loopBodyStart(lp)
-	outs, why := e6Enumerate(func() *e6Interp { return &e6Interp{} }, start, lp.Header, iterStop(lp, start), 256)
+	outs, why := e6Enumerate(func() *e6Interp {
+		return &e6Interp{Inline: func(f *ssa.Function) bool {
+			// arithmetic helpers of the package over centres: loop-free functions of floats
+			if f.Pkg != fn.Pkg || f.Blocks == nil || f.Signature.Recv() != nil || len(naturalLoops(f)) > 0 || len(f.Blocks) > 12 || len(f.Params) == 0 {
+				return false
+			}
+			for _, prm := range f.Params {
+				if !isFloat(prm.Type()) {
+					return false
+				}
+			}
+			return true
+		}}
+	}, start, lp.Header, iterStop(lp, start), 256)
 	if why != "" {
 		c.Undecided(R, "summary:table", site, why)
 		return
@@ -617,11 +630,13 @@ func c14Summary(c *Ctx, p *Prog) {
 	n := 0
 	for _, o := range outs {
 		var present, hasBase, equal, baseZero *bool
-		for k, v := range o.Assign {
+		for _, k := range o.AtomKeys() {
+			v := o.Assign[k]
+			_ = v
 			s := o.AtomSyms[k]
 			vv := v
 			switch {
-			case s.Op == "extract" && s.Idx == 1:
+			case s.Op == "extract" && s.Idx == 1 && len(s.Args) == 1 && s.Args[0].Op == "lookup":
 				present = &vv
 			case s.Op == "binop" && s.Tok == token.EQL && s.Args[1].isConst() && s.Args[1].IsNil:
 				t := !v
